@@ -115,6 +115,13 @@ def exec_op(rt, wl, labs, op, buffers=None):
         return labs[op["lab"]].add(_wells(op), _vols(op), op.get("label"), compositions=_comps(op))
     if k == "remove":
         return labs[op["lab"]].remove(_wells(op), _vols(op), op.get("label"))
+    if k in ("aspirate", "dispense") and op.get("vself"):
+        # `wl.dispense(plate, plate.wells, plate.volumes)`: the arguments are the labware's own attribute objects
+        # (double every well / empty every well) - the recorded matrices in the op are what they hold at that moment
+        lab = labs[op["lab"]]
+        if k == "aspirate":
+            return wl.aspirate(lab, lab.wells, lab.volumes, label=op.get("label"))
+        return wl.dispense(lab, lab.wells, lab.volumes, label=op.get("label"))
     if k == "aspirate":
         return wl.aspirate(labs[op["lab"]], _wells(op), _vols(op), label=op.get("label"), **_kw(rt, op))
     if k == "dispense":
